@@ -99,6 +99,13 @@ Theorem C06_a_notified_pass_reloads_only_dependents_of_changes : forall reloader
   exists r, In r (to_reload s) /\ tdep (graph s) (DepAsset k) r.
 Proof. exact notified_pass_is_precise. Qed.
 
+(* an asset whose latest successful load recorded nothing (a value read from no file, no directory and
+   no other asset) is in no pass, whatever is notified, in any history *)
+Theorem C06_nothing_recorded_never_reloaded : forall reloader ops order k,
+  let s := drain (fst (run (init_st reloader) ops)) in
+  legal_order s order = true -> deps_of (graph s) (DepAsset k) = [] -> ~ In k order.
+Proof. exact nothing_recorded_never_reloaded. Qed.
+
 (* the premises are met: an edited file, a notification, and the pass that reloads its asset *)
 Example C06_precision_nonvacuous :
   let s := drain (fst (run (init_st true)
